@@ -29,8 +29,26 @@ D, DT = datetime.date, datetime.datetime
 NAN, INF = float("nan"), float("inf")
 _FOO, _BAR = Foo(), Bar()
 
+class _NoTruth:
+    def __bool__(self):
+        raise TypeError("the truth value of this comparison result is ambiguous")
+
+
+class _ArrayLike:
+    """a cell whose == does not give a bool (what a Vector, a numpy array or a pandas object stored in an object column does)"""
+    def __eq__(self, other):
+        return _NoTruth()
+
+    __hash__ = object.__hash__
+
+    def __repr__(self):
+        return "<arraylike>"
+
+
+_ARR = _ArrayLike()
+
 VALS = {
-    "None": None,
+    "None": None, "arr": _ARR,
     "i0": 0, "i-1": -1, "i7": 7, "iBig": 10 ** 30, "iNeg": -(10 ** 18), "iHuge": 10 ** 400,
     "f1": 1.0, "f2.5": 2.5, "fnan": NAN, "finf": INF, "f-inf": -INF, "fover": 1e308 * 10, "fmax": 1e308, "ftiny": 1e-300,
     "f-0": -0.0, "f1e22": 1e22, "f1e16": 1e16, "f123": 123456.789, "f.1": 0.1, "f-2.25": -2.25, "f1e15": 1e15 + 0.5,
@@ -54,7 +72,7 @@ POOLS = {
     "temporalmix": ["d1", "t1", "t2"],
     "complex": ["c1", "c2", "cnan"],
     "bytes": ["y1", "y2"],
-    "object": ["i7", "sa", "f2.5", "tup", "y1", "T", "d1", "sbc", "fnan", "c1"],
+    "object": ["i7", "sa", "f2.5", "tup", "y1", "T", "d1", "sbc", "fnan", "c1", "arr"],
     "none": ["None"],
     "foo": ["foo"],
     "foobar": ["foo", "bar"],
@@ -329,6 +347,9 @@ def execute(spec):
             return {"skip": "name outside the generated space"}
     obj = _build(spec)
     is_table = spec["fam"] == "table"
+    for c in (obj.cols() if isinstance(obj, Table) else [obj]):
+        if c.schema() is not None and c.schema().kind is _ArrayLike:
+            return {"skip": "a column of the probe class alone (its class name is not on the wire)"}
     if is_table != isinstance(obj, Table):
         return {"skip": "constructor returned the other class"}
     I = Interner()
